@@ -83,3 +83,125 @@ Theorem C02_code_discrete_choice_axes_of_the_data_space : forall vi : list varin
   SimulateKernels.determine_discrete_dense_choice_axes vi = match k with O => None | _ => Some (seq 1 k) end.
 Proof. exact simulate_choice_axes. Qed.
 Print Assumptions C02_code_discrete_choice_axes_of_the_data_space.
+
+(* ---- ONE SIMULATED DECISION OF THE CODE IS A MAXIMISER OF THE SPECIFICATION'S OBJECTIVE ------------------------ *)
+From Coq Require Import Permutation.
+From LCM Require Import Base.ArrOps Model.DispatchersG Gen.Argmax Proofs.C14_Refine Proofs.C01_MaxCompose Proofs.C01_Period
+                        Proofs.C02_ArgmaxAll Proofs.C02_Decision.
+(* the regenerated argmax (Gen/Argmax.v) over a trailing block of axes, with or without mask and initial value:    *)
+(* the value is the masked maximum of the block in row-major order, the position the first row-major position of   *)
+(* an unmasked entry that attains it (used for compute_ccv_policy: all axes, mask = feasibility, initial -inf;      *)
+(* and for _calculate_discrete_argmax: axes 1..k, no mask)                                                          *)
+Theorem C02_code_argmax_over_trailing_axes :
+  forall (a : arr val) (initial : option val) (w : option (arr bool)) (r : nat),
+  match w with Some w0 => shape w0 = shape a | None => True end -> (r <= length (shape a))%nat ->
+  forall outer, in_bounds (firstn r (shape a)) outer ->
+  let res := argmax a (Some (seq r (length (shape a) - r))) initial w in
+  get VUndef (snd res) outer = block_max a initial w r outer /\
+  get 0%nat (fst res) outer
+  = first_true (map (fun k => veqb_num (entry_ a r outer k) (block_max a initial w r outer) && okk_ a w r outer k)
+                    (seq 0 (size (skipn r (shape a))))).
+Proof.
+  intros a initial w r Hw Hr outer Ho. split.
+  - exact (argmax_trailing_value a initial w r Hw Hr outer Ho).
+  - exact (argmax_trailing_position a initial w r Hw Hr outer Ho).
+Qed.
+Print Assumptions C02_code_argmax_over_trailing_axes.
+
+(* For a model without filter-restricted variables and ANY states of the agents (one column per state variable,    *)
+(* one row per agent; on or off the grid): what one period of simulate computes -- compute_ccv_policy (regenerated) *)
+(* on utility_and_feasibility (the regenerated u_and_f) product-mapped over the continuous choice grids; the space   *)
+(* map of it, jointly over the agents' rows first, then over the dense discrete choice grids; the regenerated        *)
+(* _calculate_discrete_argmax over the choice axes 1..k (none without a dense discrete choice); the regenerated      *)
+(* filter_ccv_policy reading the continuous arg-max at the chosen discrete combination -- gives for EVERY agent:     *)
+(*  (1) a value that is the specification's value_at of the agent's state (the maximum over all admissible grid      *)
+(*      choices of utility + beta * expected interpolated next value);                                              *)
+(*  (2) unless that is -inf, choice indices inside the grids whose choice passes all filters and constraints and      *)
+(*      whose objective IS that value.                                                                              *)
+Theorem C02_simulated_decision_of_the_code_is_a_feasible_maximiser :
+  forall (m : model) (p : params) (t : nat) (F : list nat -> Q) (dst dch cst cch : list (string * grid)),
+  Permutation (dch ++ cch) (choices m) -> NoDup (map fst (choices m)) -> NoDup (map fst (states m)) -> grids_valid (states m) ->
+  forall (n : nat) (colsD colsC : list (list Q)),
+  length colsD = length dst -> length colsC = length cst ->
+  Forall (fun c : list Q => length c = n) (colsD ++ colsC) -> (colsD ++ colsC)%list <> [] ->
+  (forall i dc cc, (i < n)%nat -> in_bounds (sizes dch) dc -> in_bounds (sizes cch) cc ->
+     evaluates_at m p F (agent_env t dst dch cst cch colsD colsC i dc cc)) ->
+  let uf := uf_code m p t F dst dch cst cch in
+  forall i, (i < n)%nat ->
+  veq (value_g dst dch cst cch uf colsD colsC i) (value_at m p t false (fun idx => VFin (F idx)) (agent_state dst cst colsD colsC i)) /\
+  (value_g dst dch cst cch uf colsD colsC i <> VNegInf ->
+   let red := red_g dst dch cst cch uf colsD colsC i in
+   let cidx := unravel (sizes cch) (cont_argmax_g dst dch cst cch uf colsD colsC i) in
+   in_bounds (sizes dch) red /\ in_bounds (sizes cch) cidx /\
+   feasible m p (agent_env t dst dch cst cch colsD colsC i red cidx) = true /\
+   veq (objective m p false (fun idx => VFin (F idx)) (agent_env t dst dch cst cch colsD colsC i red cidx))
+       (value_g dst dch cst cch uf colsD colsC i)).
+Proof.
+  intros m p t F dst dch cst cch H1 H2 H3 H4 n colsD colsC H5 H6 H7 H8 H9 uf i Hi.
+  exact (decision_of_the_code_is_optimal m p t F dst dch cst cch H1 H2 H3 H4 n colsD colsC H5 H6 H7 H8 H9 i Hi).
+Qed.
+Print Assumptions C02_simulated_decision_of_the_code_is_a_feasible_maximiser.
+
+(* the same in the last period (the regenerated last-period u_and_f: no continuation) *)
+Theorem C02_simulated_last_decision_of_the_code_is_a_feasible_maximiser :
+  forall (m : model) (p : params) (t : nat) (vnext : list nat -> val) (dst dch cst cch : list (string * grid)),
+  Permutation (dch ++ cch) (choices m) -> NoDup (map fst (choices m)) ->
+  forall (n : nat) (colsD colsC : list (list Q)),
+  length colsD = length dst -> length colsC = length cst ->
+  Forall (fun c : list Q => length c = n) (colsD ++ colsC) -> (colsD ++ colsC)%list <> [] ->
+  (forall i dc cc, (i < n)%nat -> in_bounds (sizes dch) dc -> in_bounds (sizes cch) cc ->
+     exists u, eval_fun (depth m) m p (agent_env t dst dch cst cch colsD colsC i dc cc) "utility" = Some u) ->
+  let uf := uf_code_last m p t dst dch cst cch in
+  forall i, (i < n)%nat ->
+  veq (value_g dst dch cst cch uf colsD colsC i) (value_at m p t true vnext (agent_state dst cst colsD colsC i)) /\
+  (value_g dst dch cst cch uf colsD colsC i <> VNegInf ->
+   let red := red_g dst dch cst cch uf colsD colsC i in
+   let cidx := unravel (sizes cch) (cont_argmax_g dst dch cst cch uf colsD colsC i) in
+   in_bounds (sizes dch) red /\ in_bounds (sizes cch) cidx /\
+   feasible m p (agent_env t dst dch cst cch colsD colsC i red cidx) = true /\
+   veq (objective m p true vnext (agent_env t dst dch cst cch colsD colsC i red cidx))
+       (value_g dst dch cst cch uf colsD colsC i)).
+Proof.
+  intros m p t vnext dst dch cst cch H1 H2 n colsD colsC H5 H6 H7 H8 H9 uf i Hi.
+  exact (last_decision_of_the_code_is_optimal m p t vnext dst dch cst cch H1 H2 n colsD colsC H5 H6 H7 H8 H9 i Hi).
+Qed.
+Print Assumptions C02_simulated_last_decision_of_the_code_is_a_feasible_maximiser.
+
+(* non-vacuity: three agents off the grid in a model with a discrete and a continuous choice, a stochastic and a   *)
+(* continuous state and a constraint; the hypotheses hold (decided), the agents decide differently, the reported   *)
+(* value is the specification's                                                                                      *)
+Local Open Scope string_scope. Local Open Scope Q_scope.
+Definition dec_model : model :=
+  mkModel 3 [("h", GDisc 2); ("w", GLin 0 2 3)] [("d", GDisc 2); ("c", GLin 0 2 5)]
+    [mkUfun "utility" ["c"; "w"; "h"; "d"] (ESub (EAdd (EVar "c") (EMul (EVar "w") (EVar "h"))) (EMul (EConst (1#4)) (EVar "d"))) false;
+     mkUfun "next_w" ["w"; "c"; "d"] (EAdd (ESub (EVar "w") (EVar "c")) (EMul (EConst (1#2)) (EVar "d"))) false;
+     mkUfun "next_h" ["h"] (EConst 0) true;
+     mkUfun "budget_constraint" ["c"; "w"; "d"] (ELe (EVar "c") (EAdd (EVar "w") (EMul (EConst (1#2)) (EVar "d")))) false].
+Definition dec_params : params := mkParams (9 # 10) [] [("h", mkArr [2; 2]%nat [1 # 4; 3 # 4; 1 # 2; 1 # 2])].
+Definition dec_table (idx : list nat) : Q := match idx with [a; b] => Qofnat a + (1 # 2) * Qofnat b | _ => 0 end.
+Definition dec_D : list (list Q) := [[0; 1; 1]].
+Definition dec_C : list (list Q) := [[1 # 3; 3 # 2; 5 # 2]].
+Definition dec_point_okb : bool :=
+  forallb (fun i => forallb (fun dc => forallb (fun cc =>
+    evaluates_atb dec_model dec_params dec_table
+      (agent_env 0 [("h", GDisc 2)] [("d", GDisc 2)] [("w", GLin 0 2 3)] [("c", GLin 0 2 5)] dec_D dec_C i dc cc))
+    (indices [5%nat])) (indices [2%nat])) (seq 0 3).
+Example C02_decision_nonvacuous :
+  let dst := [("h", GDisc 2)] in let dch := [("d", GDisc 2)] in let cst := [("w", GLin 0 2 3)] in let cch := [("c", GLin 0 2 5)] in
+  Permutation (dch ++ cch) (choices dec_model) /\ NoDup (map fst (choices dec_model)) /\
+  NoDup (map fst (states dec_model)) /\ grids_valid (states dec_model) /\
+  dec_point_okb = true /\
+  map (fun i => (vred (value_g dst dch cst cch (uf_code dec_model dec_params 0 dec_table dst dch cst cch) dec_D dec_C i),
+                 red_g dst dch cst cch (uf_code dec_model dec_params 0 dec_table dst dch cst cch) dec_D dec_C i,
+                 cont_argmax_g dst dch cst cch (uf_code dec_model dec_params 0 dec_table dst dch cst cch) dec_D dec_C i,
+                 vred (value_at dec_model dec_params 0 false (fun i => VFin (dec_table i)) (agent_state dst cst dec_D dec_C i))))
+      [0; 1; 2]%nat
+  = [(VFin (43 # 40), [1%nat], 1%nat, VFin (43 # 40)); (VFin (37 # 10), [1%nat], 4%nat, VFin (37 # 10));
+     (VFin (207 # 40), [0%nat], 4%nat, VFin (207 # 40))].
+Proof.
+  cbv zeta. split; [apply Permutation_refl|].
+  split; [repeat constructor; simpl; intuition discriminate|].
+  split; [repeat constructor; simpl; intuition discriminate|].
+  split; [repeat constructor; vm_compute; reflexivity|].
+  split; vm_compute; reflexivity.
+Qed.
